@@ -383,6 +383,178 @@ Proof.
     + apply Hno. left. exact Hin.
     + exact (ncname_notin l c Hl Hc Hin).
   - exact (ncname_notin l c Ht Hc Hin).
-  - apply Hno. right. exact Hin.
+  - apply Hno. right. destruct Hin as [Hin|[]]. left. exact Hin.
   - apply Hno. right. right. exact Hin.
+Qed.
+
+Lemma step_str_notin s c :
+  test_okb (st_test s) = true -> name_char_ok c = false ->
+  existsb (N.eqb c) (58%N :: 42%N :: s_comment) = false ->
+  is_digit c = false -> c <> 93%N ->
+  ~ In c (step_to_str s) \/ c = 91%N.
+Proof.
+  intros Ht Hc Hx Hd H93. destruct (N.eq_dec c 91) as [->|H91]; [right; reflexivity|left].
+  unfold step_to_str. intros Hin. apply in_app_or in Hin as [Hin|Hin].
+  - exact (test_str_notin _ c Ht Hc Hx Hin).
+  - destruct (st_idx s) as [i|]; [|contradiction].
+    destruct Hin as [Hin|Hin]; [congruence|].
+    apply in_app_or in Hin as [Hin|[Hin|[]]].
+    + exact (digit_notin _ c Hd Hin).
+    + congruence.
+Qed.
+
+Lemma step_str_no_slash s : test_okb (st_test s) = true -> ~ In 47%N (step_to_str s).
+Proof.
+  intros Ht. destruct (step_str_notin s 47%N Ht eq_refl eq_refl eq_refl) as [H|H];
+    [discriminate|exact H|discriminate].
+Qed.
+
+(* parse_test *)
+Lemma parse_test_to_str t : test_okb t = true -> parse_test (test_to_str t) = Some t.
+Proof.
+  intros Ht. destruct t as [[p|] l| |]; cbn [test_to_str test_okb] in *; try reflexivity.
+  - apply andb_true_iff in Ht as [Hp Hl]. unfold parse_test.
+    assert (E1 : str_eqb (p ++ 58%N :: l) [42%N] = false).
+    { destruct (str_eqb (p ++ 58%N :: l) [42%N]) eqn:E; [|reflexivity].
+      apply str_eqb_true in E. apply (f_equal (@length _)) in E. rewrite app_length in E.
+      cbn [length] in E. pose proof (ncname_nonempty p Hp). destruct p; [congruence|cbn [length] in E; lia]. }
+    assert (E2 : str_eqb (p ++ 58%N :: l) s_comment = false).
+    { destruct (str_eqb (p ++ 58%N :: l) s_comment) eqn:E; [|reflexivity].
+      apply str_eqb_true in E.
+      assert (Hin : In 58%N s_comment) by (rewrite <- E; apply in_or_app; right; left; reflexivity).
+      apply In_existsb_N in Hin. vm_compute in Hin. discriminate. }
+    rewrite E1, E2.
+    rewrite (split_on_sep 58%N p l []) by (exact (ncname_notin p 58%N Hp eq_refl)).
+    rewrite (split_on_nosep 58%N l []) by (exact (ncname_notin l 58%N Hl eq_refl)).
+    cbn [rev app]. pose proof (ncname_nonempty p Hp). pose proof (ncname_nonempty l Hl).
+    destruct p; [congruence|]. destruct l; [congruence|]. reflexivity.
+  - unfold parse_test.
+    assert (E1 : str_eqb l [42%N] = false).
+    { destruct (str_eqb l [42%N]) eqn:E; [|reflexivity]. apply str_eqb_true in E. subst l.
+      vm_compute in Ht. discriminate. }
+    assert (E2 : str_eqb l s_comment = false).
+    { destruct (str_eqb l s_comment) eqn:E; [|reflexivity]. apply str_eqb_true in E. subst l.
+      vm_compute in Ht. discriminate. }
+    rewrite E1, E2.
+    rewrite (split_on_nosep 58%N l []) by (exact (ncname_notin l 58%N Ht eq_refl)).
+    cbn [rev app]. pose proof (ncname_nonempty l Ht). destruct l; [congruence|]. reflexivity.
+Qed.
+
+(* split_index *)
+Lemma split_index_to_str s : test_okb (st_test s) = true ->
+  split_index (step_to_str s) = Some (test_to_str (st_test s), st_idx s).
+Proof.
+  intros Ht.
+  assert (H91 : ~ In 91%N (test_to_str (st_test s))) by (exact (test_str_notin _ 91%N Ht eq_refl eq_refl)).
+  unfold split_index, step_to_str. destruct (st_idx s) as [i|].
+  - rewrite (split_on_sep 91%N _ _ [] H91).
+    rewrite (split_on_nosep 91%N).
+    2:{ intros Hin. apply in_app_or in Hin as [Hin|[Hin|[]]]; [|discriminate].
+        exact (digit_notin _ 91%N eq_refl Hin). }
+    cbn [rev app]. rewrite rev_app_distr. cbn [rev app]. rewrite N.eqb_refl, rev_involutive.
+    rewrite nat_of_digits_str_of_N. rewrite Nat2N.id. reflexivity.
+  - rewrite app_nil_r. rewrite (split_on_nosep 91%N _ [] H91). reflexivity.
+Qed.
+
+Lemma parse_step_to_str s : test_okb (st_test s) = true -> parse_step (step_to_str s) = Some s.
+Proof.
+  intros Ht. unfold parse_step. rewrite (split_index_to_str s Ht), (parse_test_to_str _ Ht).
+  destruct s; reflexivity.
+Qed.
+
+Lemma split_path p : path_okb p = true -> forall x cur, ~ In 47%N x ->
+  split_on 47%N (x ++ path_to_str p) cur = (rev cur ++ x) :: map step_to_str p.
+Proof.
+  induction p as [|s r IH]; intros Hok x cur Hx.
+  - cbn [path_to_str flat_map map]. rewrite app_nil_r. apply split_on_nosep. exact Hx.
+  - cbn [path_okb forallb] in Hok. apply andb_true_iff in Hok as [Hs Hr].
+    change (path_to_str (s :: r)) with ((47%N :: step_to_str s) ++ path_to_str r).
+    cbn [app]. rewrite (split_on_sep 47%N x _ cur Hx). f_equal.
+    rewrite (IH Hr (step_to_str s) [] (step_str_no_slash s Hs)). reflexivity.
+Qed.
+
+Lemma all_some_parse p : path_okb p = true ->
+  all_some (map parse_step (map step_to_str p)) = Some p.
+Proof.
+  induction p as [|s r IH]; intros Hok; [reflexivity|].
+  cbn [path_okb forallb] in Hok. apply andb_true_iff in Hok as [Hs Hr].
+  cbn [map all_some]. rewrite (parse_step_to_str s Hs), (IH Hr). reflexivity.
+Qed.
+
+Theorem path_of_str_to_str p : p <> [] -> path_okb p = true ->
+  path_of_str (path_to_str p) = Some p.
+Proof.
+  intros Hne Hok. destruct p as [|s r]; [congruence|].
+  change (path_to_str (s :: r)) with (47%N :: step_to_str s ++ path_to_str r).
+  unfold path_of_str. rewrite N.eqb_refl.
+  pose proof Hok as Hok'. cbn [path_okb forallb] in Hok'. apply andb_true_iff in Hok' as [Hs Hr].
+  rewrite (split_path r Hr (step_to_str s) [] (step_str_no_slash s Hs)).
+  cbn [rev app]. change (step_to_str s :: map step_to_str r) with (map step_to_str (s :: r)).
+  apply all_some_parse. exact Hok.
+Qed.
+
+(* ------------------------------------------------------------------ *)
+(** * The names getpath prints                                          *)
+(* ------------------------------------------------------------------ *)
+Definition names_ok (pe : penv) (f : forest) (root : id) : Prop :=
+  forall n, In n (doc_nodes f root) -> test_okb (test_of pe (ltag (flab f n))) = true.
+Definition names_okb (pe : penv) (f : forest) (root : id) : bool :=
+  forallb (fun n => test_okb (test_of pe (ltag (flab f n)))) (doc_nodes f root).
+
+Lemma names_okb_iff pe f root : names_okb pe f root = true <-> names_ok pe f root.
+Proof. unfold names_okb, names_ok. apply forallb_forall. Qed.
+
+(* what names_ok says about a tag, in terms of Clark notation *)
+Lemma tag_name_ok_spec pe name :
+  test_okb (test_of pe (TElem name)) = true <->
+  match unclark name with
+  | (None, l) => ncname_ok l = true
+  | (Some u, l) => match pe u with
+                   | Some p => ncname_ok p = true /\ ncname_ok l = true
+                   | None => True
+                   end
+  end.
+Proof.
+  unfold test_of. destruct (unclark name) as [[u|] l].
+  - destruct (pe u) as [p|]; cbn [test_okb].
+    + apply andb_true_iff.
+    + split; auto.
+  - cbn [test_okb]. reflexivity.
+Qed.
+
+Lemma path_okb_app a b : path_okb (a ++ b) = path_okb a && path_okb b.
+Proof. apply forallb_app. Qed.
+
+Lemma chain_steps_ok pe f root : wf_forest f root -> names_ok pe f root ->
+  forall l n, pathto f root l n -> path_okb (chain_steps f pe l) = true.
+Proof.
+  intros Hwf Hok. induction 1 as [|l b c Hp IH Hin].
+  - cbn [chain_steps path_okb forallb]. rewrite andb_true_r.
+    apply Hok. apply doc_nodes_iff; [exact Hwf|constructor].
+  - destruct (path_head _ _ _ _ Hp) as [l' ->].
+    change (chain_steps f pe (c :: b :: l')) with (chain_steps f pe (b :: l') ++ [step_of f pe c (kidsof f b)]).
+    rewrite path_okb_app, IH. cbn [path_okb forallb andb]. rewrite andb_true_r.
+    apply Hok. apply doc_nodes_iff; [exact Hwf|]. eapply desc_step; [|exact Hin].
+    eapply path_desc; [exact Hp|left; reflexivity].
+Qed.
+
+Lemma getpath_ok pe f root n :
+  wf_forest f root -> In n (doc_nodes f root) -> names_ok pe f root ->
+  getpath pe f root n <> [] /\ path_okb (getpath pe f root n) = true.
+Proof.
+  intros Hwf Hn Hok. pose proof Hn as Hn'. apply (doc_nodes_iff f root n Hwf) in Hn.
+  destruct (getpath_shape pe f root n Hwf Hn) as [[-> E]|(l' & b & Hp & Hin & E)]; rewrite E.
+  - split; [discriminate|]. cbn [path_okb forallb force_step st_test]. rewrite andb_true_r.
+    apply Hok. exact Hn'.
+  - split; [intros H; apply app_eq_nil in H as [_ H]; discriminate|].
+    rewrite path_okb_app, (chain_steps_ok pe f root Hwf Hok l' b Hp).
+    cbn [path_okb forallb andb force_step st_test]. rewrite andb_true_r. apply Hok. exact Hn'.
+Qed.
+
+Theorem path_roundtrip pe f root n :
+  wf_forest f root -> In n (doc_nodes f root) -> names_ok pe f root ->
+  path_of_str (path_to_str (getpath pe f root n)) = Some (getpath pe f root n).
+Proof.
+  intros Hwf Hn Hok. destruct (getpath_ok pe f root n Hwf Hn Hok) as [H1 H2].
+  apply path_of_str_to_str; assumption.
 Qed.
